@@ -365,23 +365,29 @@ def componentErrs (m : Module) (prev : Array Sh) (i t : Nat) (hs : List Nat) : L
   | some (.scalar k w) => [s!"global expression {i}: constructor of the scalar type {showSh (.scalar k w)}"]
   | _ => []
 
+def globalStep (m : Module) (acc : Array Sh × List String) (ie : Nat × Expr) : Array Sh × List String :=
+  let errs := match ie.2 with
+    | .compose t hs => acc.2 ++ componentErrs m acc.1 ie.1 t hs
+    | _ => acc.2
+  (acc.1.push (inferGlobal m acc.1 ie.2), errs)
+
+/-- (shape of every global expression, diagnostics of the constructors among them). -/
+def globalFold (m : Module) : Array Sh × List String :=
+  ((List.range m.gexprs.size).zip m.gexprs.toList).foldl (globalStep m) (#[], [])
+
+/-- A module-scope variable whose initializer is a global expression of another (known) type. -/
+def initErr (m : Module) (shapes : Array Sh) (g : Global) : Option String :=
+  match g.init with
+  | some (true, h) =>
+    let got := shapes.getD h .unknown
+    let want := shOfTy m.types g.ty
+    if got != .unknown && want != .unknown && got != want then
+      some s!"global {g.name}: initializer has type {showSh got} but the variable has type {showSh want}"
+    else none
+  | _ => none
+
 def checkGlobalExprTypes (m : Module) : List String :=
-  let step (acc : Array Sh × List String) (ie : Nat × Expr) : Array Sh × List String :=
-    let (prev, errs) := acc
-    let errs := match ie.2 with
-      | .compose t hs => errs ++ componentErrs m prev ie.1 t hs
-      | _ => errs
-    (prev.push (inferGlobal m prev ie.2), errs)
-  let (shapes, errs) := ((List.range m.gexprs.size).zip m.gexprs.toList).foldl step (#[], [])
-  errs ++ m.globals.toList.filterMap (fun g =>
-    match g.init with
-    | some (true, h) =>
-      let got := shapes.getD h .unknown
-      let want := shOfTy m.types g.ty
-      if got != .unknown && want != .unknown && got != want then
-        some s!"global {g.name}: initializer has type {showSh got} but the variable has type {showSh want}"
-      else none
-    | _ => none)
+  (globalFold m).2 ++ m.globals.toList.filterMap (initErr m (globalFold m).1)
 
 /-- `(typed <module> (tynames …) (fntypes (name t…)…))` ↦ all diagnostics. -/
 def validateTyped (x : Sexp) : Option (List String) :=
